@@ -301,12 +301,9 @@ class MyPyAstVisitor:
             if doc_type is not None and (
                 code_type is None or self.type_source_preference == TypeSourcePreference.DOCSTRING
             ):
-                parameters[i] = dataclasses.replace(
-                    parameter,
-                    is_optional=parameter.docstring.default_value != "",
-                    default_value=parameter.docstring.default_value,
-                    type=doc_type,
-                )
+                # Only the type is taken from the docstring: whether there is a default and which one is decided by the
+                # parameter list itself (the text in the docstring is no value, "None" or 'abc' would be copied as they are)
+                parameters[i] = dataclasses.replace(parameter, type=doc_type)
 
         # Create results and result docstrings
         result_docstrings = self.docstring_parser.get_result_documentation(node.fullname)
